@@ -2,4 +2,5 @@ pub mod graph;
 pub mod names;
 pub mod project;
 pub mod rust;
+pub mod rustsyntax;
 pub mod ty;
